@@ -4,18 +4,20 @@ import QProofs.C14
 
 All statements are unbounded in the number of outcomes, the data length, the number of sample sizes, the number of
 schedules and the number of preceding calls. `probs.take i |>.sum` is the cumulative sum `c_i` (`c_0 = 0`).
-Probabilities are rationals (every float is one). The running sum of the model is exact; the code adds in floats. Theorems marked
-(EXACT) do not transfer to the float code on vectors whose float running sums differ from the exact ones; `r2d_hit_nonzero_any_add`
-does transfer, and the remaining case — the fall-through — is the open finding D19.
+Probabilities are rationals (every float is one). The running sum of the model is exact; the code adds in floats. `r2d_interval` is about exact sums;
+the validity clause (`r2d_pos_any_add`, `data_valid`) holds for any addition with `add c 0 = c`, hence for the float code
+(the former defect D19 — a zero-probability outcome after a rounding fall-through — was repaired in 007afc6).
 -/
 namespace QM.C14
 
 /-- **(T) `generated_core`** — the pieces regenerated from the source (`QGen.C14`, harness/c14_translate.py) are the ones
 every theorem below assumes: the loop tests `random_number < cumulative_sum` (strict), the running sum starts at 0,
-the fall-through returns `len − 1`. An edit of the comparison direction / start / fall-through in the source re-opens this. -/
+after a fall-through the backward loop keeps entries `> 0`, the final result is `len − 1`. An edit of a comparison
+direction / start / backward test / final result in the source re-opens this. -/
 theorem generated_core (u c : Rat) (n : Int) :
-    (QGen.C14.hit u c = true ↔ u < c) ∧ QGen.C14.cumStart = 0 ∧ QGen.C14.fallThrough n = n - 1 :=
-  ⟨hit_iff u c, rfl, rfl⟩
+    (QGen.C14.hit u c = true ↔ u < c) ∧ QGen.C14.cumStart = 0 ∧ (QGen.C14.fallKeep c = true ↔ 0 < c) ∧
+      QGen.C14.fallThrough n = n - 1 :=
+  ⟨hit_iff u c, rfl, fallKeep_iff c, rfl⟩
 
 /-- **(T) `generated_empi_tests`** — the tests and offsets of `calc_empi_dist_sequence` regenerated from the source are the
 ones the theorems about empirical distributions assume: `measurement_num < 0`, `num_sum > len(data)`,
@@ -46,8 +48,14 @@ theorem r2d_range (probs : List Rat) (u : Rat) (h : probs ≠ []) :
   · rename_i i hi
     have := r2dLoop_lt probs u 0 0 i hi
     omega
-  · have : 0 < probs.length := List.length_pos_iff.2 h
-    exact ⟨Int.sub_nonneg_of_le (by exact_mod_cast this), by linarith⟩
+  · have hlen : 0 < probs.length := List.length_pos_iff.2 h
+    unfold fallResult
+    split
+    · rename_i j hj
+      obtain ⟨k, hk, hlt, _, _⟩ := lastKeep_some probs 0 j hj
+      omega
+    · rw [fallThrough_eq]
+      exact ⟨Int.sub_nonneg_of_le (by exact_mod_cast hlen), by linarith⟩
 
 /-- **C14.b `r2d_interval`** — cumulative-sum inversion: for non-negative entries and `0 ≤ u` the outcome is `i`
 exactly when `c_i ≤ u < c_{i+1}`; the preimage of `i` is a half-open interval of length `probs[i]`. -/
@@ -86,11 +94,9 @@ theorem r2d_interval (probs : List Rat) (hnn : ∀ p ∈ probs, 0 ≤ p) (u : Ra
     have := sum_take_le_sum probs hnn (i + 1)
     linarith
 
-/-- **C14.c0 `r2d_hit_nonzero_any_add`** — the clause "only outcomes of non-zero probability" in the form that TRANSFERS to the
-float code: whatever addition the running sum uses (exact, or IEEE double `+`), as long as `add c 0 = c`, a *hit* of the
-loop (`return index` inside the `for`) with `0 ≤ u` never lands on an entry that is exactly `0`. The only way to obtain a
-zero-probability outcome is the fall-through `return len − 1`, taken iff `u` is not below the LAST running sum as the code
-computed it — which in floats can happen for a normalised vector (open finding D19: `[0.1]*10 + [0.0]`, `u = 1 − 2⁻⁵³`). -/
+/-- **C14.c0 `r2d_hit_nonzero_any_add`** — whatever addition the running sum uses (exact, or IEEE double `+`), as long as
+`add c 0 = c`: a *hit* of the first loop (`return index` inside the `for`) with `0 ≤ u` never lands on an entry that is
+exactly `0`. -/
 theorem r2d_hit_nonzero_any_add (add : Rat → Rat → Rat) (hadd : ∀ c, add c 0 = c) (probs : List Rat) (u : Rat)
     (hu : 0 ≤ u) (i : Nat) (h : r2dLoopW add probs u 0 0 = some i) :
     ∃ hi : i < probs.length, probs[i] ≠ 0 := by
@@ -102,12 +108,15 @@ theorem r2d_hit_nonzero_any_add (add : Rat → Rat → Rat) (hadd : ∀ c, add c
 the float sums of the implementation, for every vector incl. non-dyadic ones on the boundaries) -/
 theorem r2dLoop_is_instance (add : Rat → Rat → Rat) (probs : List Rat) (u : Rat) :
     r2dLoop probs u 0 0 = r2dLoopW (· + ·) probs u 0 0 ∧
-    r2dLoopW add probs u 0 0 = r2dCums (scanAdd add 0 probs) u 0 :=
-  ⟨r2dLoop_eq_W probs u 0 0, r2dLoopW_eq_cums add probs u 0 0⟩
+    r2dLoopW add probs u 0 0 = r2dCums (scanAdd add 0 probs) u 0 ∧
+    randomNumberToData probs u = randomNumberToDataW (· + ·) probs u := by
+  refine ⟨r2dLoop_eq_W probs u 0 0, r2dLoopW_eq_cums add probs u 0 0, ?_⟩
+  simp only [randomNumberToData, randomNumberToDataW, r2dLoop_eq_W]
 
-/-- a rounding addition (everything above 9/10 collapses to 9/10) satisfies `add c 0 = c` only where needed here; with
-it the loop falls through on a normalised vector although `u < 1` — the shape of finding D19 -/
-example : r2dLoopW (fun a b => if a + b > 9/10 then 9/10 else a + b) [1/2, 1/2, 0] (19/20) 0 0 = none := by decide +kernel
+/-- a rounding addition under which the first loop falls through on a normalised vector although `u < 1` (the situation of
+the repaired defect D19, fix 007afc6): the backward loop then returns the last POSITIVE outcome, not the trailing zero -/
+example : r2dLoopW (fun a b => if a + b > 9/10 then 9/10 else a + b) [1/2, 1/2, 0] (19/20) 0 0 = none ∧
+    randomNumberToDataW (fun a b => if a + b > 9/10 then 9/10 else a + b) [1/2, 1/2, 0] (19/20) = 1 := by decide +kernel
 
 /-- **C14.c1 `r2d_hit_pos`** (exact arithmetic, contributed by the peer review) — no sign hypothesis on the entries (the code
 accepts entries down to `−atol`), no `u < Σ probs`: a hit has strictly positive probability. -/
@@ -116,48 +125,75 @@ theorem r2d_hit_pos (probs : List Rat) (u : Rat) (hu : 0 ≤ u) (i : Nat) (h : r
 
 example : r2dLoop [1/2, -1/1000, 1/2 + 1/1000] (1/2) 0 0 = some 2 := by decide +kernel
 
-/-- **C14.c `r2d_pos`** (EXACT arithmetic; for the float code see `r2d_hit_nonzero_any_add` and finding D19) — only outcomes of non-zero probability: if `0 ≤ u < Σ probs` (entries non-negative) the
-outcome `i` has `probs[i] > 0`. -/
-theorem r2d_pos (probs : List Rat) (hnn : ∀ p ∈ probs, 0 ≤ p) (u : Rat) (hu : 0 ≤ u) (hlt : u < probs.sum) :
-    ∃ i : Nat, ∃ hi : i < probs.length, randomNumberToData probs u = i ∧ 0 < probs[i] := by
-  cases h : r2dLoop probs u 0 0 with
-  | none =>
-    have := (r2dLoop_none_iff probs hnn u 0 0 hu).1 h
-    linarith
+/-- **C14.c `r2d_pos_any_add`** — "only outcomes of non-zero probability", for the code as it is and in a form that holds
+for the float arithmetic: for ANY addition of the running sum with `add c 0 = c`, every vector of non-negative entries with
+at least one positive entry, and every `u ≥ 0` (no normalisation, no `u < Σ probs`, no exactness), the outcome is in range
+and has strictly positive probability — a hit never lands on a zero entry, and a fall-through returns the last positive one. -/
+theorem r2d_pos_any_add (add : Rat → Rat → Rat) (hadd : ∀ c, add c 0 = c) (probs : List Rat)
+    (hnn : ∀ p ∈ probs, 0 ≤ p) (hex : ∃ p ∈ probs, 0 < p) (u : Rat) (hu : 0 ≤ u) :
+    ∃ i : Nat, ∃ hi : i < probs.length, randomNumberToDataW add probs u = i ∧ 0 < probs[i] := by
+  unfold randomNumberToDataW
+  rw [cumStart_eq]
+  cases h : r2dLoopW add probs u 0 0 with
   | some i =>
-    have hi := (r2dLoop_lt probs u 0 0 i h).2
-    simp only [Nat.zero_add] at hi
-    have hr : randomNumberToData probs u = i := by simp [randomNumberToData_def, h]
-    have := (r2d_interval probs hnn u hu i hi).1 ⟨hr, hlt⟩
-    refine ⟨i, hi, hr, ?_⟩
-    have hs := List.sum_take_succ probs i hi
-    linarith
+    obtain ⟨hi, hne⟩ := r2d_hit_nonzero_any_add add hadd probs u hu i h
+    exact ⟨i, hi, rfl, lt_of_le_of_ne (hnn _ (List.getElem_mem hi)) (Ne.symm hne)⟩
+  | none =>
+    unfold fallResult
+    cases hk : lastKeep probs 0 with
+    | none =>
+      obtain ⟨p, hp, hpos⟩ := hex
+      exact absurd hpos ((lastKeep_none_iff probs 0).1 hk p hp)
+    | some j =>
+      obtain ⟨k, hjk, hlt, hpos, _⟩ := lastKeep_some probs 0 j hk
+      simp only [Nat.zero_add] at hjk; subst hjk
+      exact ⟨j, hlt, rfl, hpos⟩
 
-/-- **C14.c' `r2d_residual`** — the explicit residual branch: if `Σ probs ≤ u` (possible only through rounding, or a
-sub-normalised vector) the loop falls through and the *last* outcome is returned, whatever its probability. -/
+/-- **C14.c `r2d_pos`** — the exact-arithmetic instance of `r2d_pos_any_add` (the executed `randomNumberToData`). -/
+theorem r2d_pos (probs : List Rat) (hnn : ∀ p ∈ probs, 0 ≤ p) (hex : ∃ p ∈ probs, 0 < p) (u : Rat) (hu : 0 ≤ u) :
+    ∃ i : Nat, ∃ hi : i < probs.length, randomNumberToData probs u = i ∧ 0 < probs[i] := by
+  rw [(r2dLoop_is_instance (· + ·) probs u).2.2]
+  exact r2d_pos_any_add (· + ·) (fun c => by simp) probs hnn hex u hu
+
+/-- **C14.c' `r2d_residual`** — the fall-through branch spelled out: if `Σ probs ≤ u` (exact sums; through rounding also for a
+normalised vector) the first loop falls through and the result is the LAST outcome of positive probability; only when no entry
+is positive it is `len − 1`. -/
 theorem r2d_residual (probs : List Rat) (hnn : ∀ p ∈ probs, 0 ≤ p) (u : Rat) (hu : 0 ≤ u) (hge : probs.sum ≤ u) :
-    randomNumberToData probs u = (probs.length : Int) - 1 := by
+    randomNumberToData probs u = fallResult probs ∧
+    ((∃ j : Nat, ∃ hj : j < probs.length, fallResult probs = j ∧ 0 < probs[j] ∧
+        ∀ k (hk : k < probs.length), j < k → ¬ 0 < probs[k]) ∨
+     ((∀ p ∈ probs, ¬ 0 < p) ∧ fallResult probs = (probs.length : Int) - 1)) := by
   have := (r2dLoop_none_iff probs hnn u 0 0 hu).2 (by linarith)
-  simp [randomNumberToData_def, this]
+  refine ⟨by simp [randomNumberToData_def, this], ?_⟩
+  unfold fallResult
+  cases hk : lastKeep probs 0 with
+  | none => exact Or.inr ⟨(lastKeep_none_iff probs 0).1 hk, rfl⟩
+  | some j =>
+    obtain ⟨k, hjk, hlt, hpos, hall⟩ := lastKeep_some probs 0 j hk
+    simp only [Nat.zero_add] at hjk; subst hjk
+    exact Or.inl ⟨j, hlt, rfl, hpos, hall⟩
 
-/-- the residual branch can deliver a zero-probability outcome (sub-normalised vector, `u` just below 1) -/
-example : randomNumberToData [1/4, 1/2, 0] (7/8) = 2 := by decide +kernel
+/-- a sub-normalised vector with a trailing zero and `u` above its sum: the last POSITIVE outcome (before fix 007afc6: 2) -/
+example : randomNumberToData [1/4, 1/2, 0] (7/8) = 1 := by decide +kernel
+/-- no positive entry at all: `len − 1` -/
+example : randomNumberToData [0, 0, 0] (1/2) = 2 := by decide +kernel
 
-/-- **C14.d `data_valid`** (EXACT running sums; in floats the hypothesis `u < Σ probs` must be read with the float sum, see
-D19) — generated data (`generate_data_from_prob_dist` after the uniforms are drawn): every datum
-is in range and has non-zero probability, for any number of data. -/
-theorem data_valid (probs : List Rat) (hnn : ∀ p ∈ probs, 0 ≤ p) (us : List Rat)
-    (hus : ∀ u ∈ us, 0 ≤ u ∧ u < probs.sum) :
+/-- **C14.d `data_valid`** — generated data (`generate_data_from_prob_dist` after the uniforms are drawn), for any number of
+data: for every vector of non-negative entries with at least one positive entry and uniforms `≥ 0`, every datum is in range
+and has non-zero probability. (By `r2d_pos_any_add` the same holds with the float addition of the running sum.) -/
+theorem data_valid (probs : List Rat) (hnn : ∀ p ∈ probs, 0 ≤ p) (hex : ∃ p ∈ probs, 0 < p) (us : List Rat)
+    (hus : ∀ u ∈ us, 0 ≤ u) :
     (dataOfUniforms probs us).length = us.length ∧
     ∀ d ∈ dataOfUniforms probs us, ∃ i : Nat, ∃ hi : i < probs.length, d = i ∧ 0 < probs[i] := by
   refine ⟨by simp [dataOfUniforms], ?_⟩
   intro d hd
   simp only [dataOfUniforms, List.mem_map] at hd
   obtain ⟨u, hu, rfl⟩ := hd
-  obtain ⟨i, hi, h1, h2⟩ := r2d_pos probs hnn u (hus u hu).1 (hus u hu).2
+  obtain ⟨i, hi, h1, h2⟩ := r2d_pos probs hnn hex u (hus u hu)
   exact ⟨i, hi, h1, h2⟩
 
 example : dataOfUniforms [1/2, 0, 1/4, 1/4] [0, 1/2, 3/4, 7/8, 1/4] = [0, 2, 3, 3, 0] := by decide +kernel
+example : dataOfUniforms [1/4, 1/2, 0] [7/8, 99] = [1, 1] := by decide +kernel
 
 /-! ## empirical distributions (`calc_empi_dist_sequence`) -/
 
@@ -476,8 +512,8 @@ theorem global_stream {G : Type} (P : PRNG G) (st : Store G) (probs : List Rat) 
 uniforms are drawn, then `calc_empi_dist_sequence` with `measurement_num = len(probs)`): for valid sample sizes the run
 always succeeds, and the entry for `n` is the `n`-shot empirical distribution of the *first `n` uniforms of the same
 stream* — counts of `dataOfUniforms probs (us.take n)` divided by `n` — for every `n` requested, whatever follows. -/
-theorem empi_of_stream_prefix (probs : List Rat) (hnn : ∀ p ∈ probs, 0 ≤ p) (us : List Rat)
-    (hus : ∀ u ∈ us, 0 ≤ u ∧ u < probs.sum) (n0 : Int) (rest : List Int) (hpos : 0 < n0)
+theorem empi_of_stream_prefix (probs : List Rat) (hnn : ∀ p ∈ probs, 0 ≤ p) (hex : ∃ p ∈ probs, 0 < p) (us : List Rat)
+    (hus : ∀ u ∈ us, 0 ≤ u) (n0 : Int) (rest : List Int) (hpos : 0 < n0)
     (hinc : Increasing (n0 :: rest)) (hle : ∀ n ∈ n0 :: rest, n ≤ (us.length : Int)) :
     calcEmpiDistSequence probs.length (dataOfUniforms probs us) (n0 :: rest) =
       .ok ((n0 :: rest).map fun n =>
@@ -486,7 +522,7 @@ theorem empi_of_stream_prefix (probs : List Rat) (hnn : ∀ p ∈ probs, 0 ≤ p
   have hlen : (dataOfUniforms probs us).length = us.length := by simp [dataOfUniforms]
   have hrange : ∀ x ∈ dataOfUniforms probs us, 0 ≤ x ∧ x < (probs.length : Int) := by
     intro x hx
-    obtain ⟨i, hi, rfl, _⟩ := (data_valid probs hnn us hus).2 x hx
+    obtain ⟨i, hi, rfl, _⟩ := (data_valid probs hnn hex us hus).2 x hx
     exact ⟨by omega, by exact_mod_cast hi⟩
   obtain ⟨out, hout⟩ := (empi_ok_iff probs.length (dataOfUniforms probs us) n0 rest hpos).2
     ⟨by omega, hinc, by rw [hlen]; exact hle, fun x hx => hrange x (List.mem_of_mem_take hx)⟩
